@@ -4,19 +4,20 @@
 # of /repo HEAD and the monitor is built against it through a private modfile (replace => the worktree), so
 # several changes can be tried in parallel. The worktree is removed straight after the build.
 patch="$1"; id="$2"; name="${3:-$(basename $(dirname $patch))}"
+snap="${VMON_SNAP:-/verif}"   # where vmon/, known_findings.json and findings/ are taken from (matrix.sh snapshots them)
 export GOFLAGS=-mod=mod GOPROXY=off GOSUMDB=off GOTOOLCHAIN=local
 wt=/var/tmp/vmon-mutwt-$name-$$
 mod=/var/tmp/vmon-mutmod-$name-$$
 git -C /repo worktree add --detach "$wt" HEAD >/dev/null 2>&1 || { echo "$name vs $id: cannot create worktree"; exit 2; }
 cleanup() { git -C /repo worktree remove --force "$wt" >/dev/null 2>&1; rm -rf "$wt" $mod.mod $mod.sum; }
 if ! git -C "$wt" apply "$patch" 2>/dev/null; then cleanup; echo "$name vs $id: PATCH DOES NOT APPLY"; exit 3; fi
-sed "s|=> /repo|=> $wt|" /verif/vmon/go.mod > $mod.mod; cp /repo/go.sum $mod.sum
+sed "s|=> /repo|=> $wt|" $snap/vmon/go.mod > $mod.mod; cp /repo/go.sum $mod.sum
 out=/verif/work/mutwt/$name
 mkdir -p $out/work $out/evidence
-( cd /verif/vmon && go build -modfile=$mod.mod -tags verif -o $out/vmon-mut . ) ; brc=$?
+( cd $snap/vmon && go build -modfile=$mod.mod -tags verif -o $out/vmon-mut . ) ; brc=$?
 cleanup
 if [ $brc -ne 0 ]; then echo "$name vs $id: BUILD FAILED"; exit 4; fi
-cp /verif/known_findings.json $out/; rm -rf $out/findings; cp -r /verif/findings $out/
+cp $snap/known_findings.json $out/; rm -rf $out/findings; cp -r $snap/findings $out/
 VERIF_DIR=$out $out/vmon-mut check "$id" quick > $out/check-$id.log 2>&1
 rc=$?
 rm -f $out/vmon-mut
